@@ -8,5 +8,6 @@ CONSTANTS
   NoParam <- NoP
   KwVals <- Kw
   MaxOps = 8
+  CtxPairs <- Pairs
   Alphabet <- AllOps
 CHECK_DEADLOCK FALSE
